@@ -7,8 +7,9 @@
      QPDFJob::createQPDF        main input, handlePageSpecs, handleUnderOverlay, handleTransformations
                                 (copyAttachments: "if (other->anyWarnings()) m->warnings = true"),
                                 "m->warnings |= m->inputs.clear()"
-     QPDFJob::setWriterOptions  --copy-encryption: the file is opened with processFile, copyEncryptionParameters;
-                                its warnings are NOT looked at (faithful: see job_copy_encryption_silent_refuted)
+     QPDFJob::setWriterOptions  --copy-encryption: the file is opened with processFile, copyEncryptionParameters,
+                                "if (encryption_pdf->anyWarnings()) m->warnings = true" (/repo d4bc1464; before
+                                that repair the warnings of this file were not looked at: former finding C08-F16)
      QPDFJob::writeQPDF         "!pdf.getWarnings().empty()" for the main input, "uo.pdf->anyWarnings()" for every
                                 --overlay / --underlay file (/repo fd496b0b)
      QPDFJob::getExitCode       warnings => 3; an exception from any processFile ends the run with 2 (qpdf.cc)
@@ -74,7 +75,8 @@ Definition rj_exit (j : rj_job) : N :=
   else
     let w1 := rj_flag_loop (rj_attach j) false in        (* copyAttachments *)
     let w2 := w1 || rj_clear (rj_secondary j) in         (* m->warnings |= m->inputs.clear() *)
-    (* setWriterOptions: the --copy-encryption file is read here; nothing is added to m->warnings *)
-    let w3 := if existsb rj_warn (rj_opt (rj_main j)) then true else w2 in   (* !pdf.getWarnings().empty() *)
+    (* setWriterOptions (while writing): the --copy-encryption file is read, its warnings count (/repo d4bc1464) *)
+    let w2e := rj_flag_loop (rj_opt (rj_enc j)) w2 in
+    let w3 := if existsb rj_warn (rj_opt (rj_main j)) then true else w2e in   (* !pdf.getWarnings().empty() *)
     let w4 := rj_flag_loop (rj_uo j) w3 in               (* underlay / overlay files *)
     if w4 then 3 else 0.
